@@ -228,7 +228,9 @@ func (s *Schema) Check() []error {
 				// to each other?
 				var found bool
 				for _, invRel := range targetType.Rels {
-					if rel.FromName == invRel.ToName && rel.ToName == invRel.FromName {
+					if rel.FromName == invRel.ToName &&
+						rel.ToName == invRel.FromName &&
+						invRel.ToType == typ.Name {
 						found = true
 					}
 				}
